@@ -156,7 +156,7 @@ namespace LegacyWitness
 def oc : KeyOps Nat := ⟨fun _ => 0, fun a b => a == b⟩
 /-- … and each in a bucket of its own -/
 def od : KeyOps Nat := ⟨fun k => k, fun a b => a == b⟩
-def sh : Show Nat Nat := ⟨toString, toString, toString⟩
+def sh : Show Nat Nat := ⟨toString, toString, toString, toString⟩
 def carr : Nat → Int := fun k => 1000 + k
 abbrev O := Op Nat Nat
 end LegacyWitness
